@@ -10,13 +10,3 @@ From Mant Require Import Gen.Shapes Model.ShapesExpected Gen.Wraps Model.WrapsEx
 Theorem C20_state_space : shapes_C20 = expected_C20.
 Proof. reflexivity. Qed.
 Print Assumptions C20_state_space.
-
-(* The models use unbounded numbers and write every wrap explicitly.  The places where the source computes in a
-   fixed-width integer type (non-constant +, -, *, <<, compound assignments, ++/--) or narrows an integer, and where
-   the bounds that follow from constants, operand widths, masks and shifts do not keep the exact result inside the
-   type, are re-read on every run (go2coq wraps, go/types per package).  Every such site of the current source must
-   be one the models were written against (with multiplicity): a new site is arithmetic the model does not wrap, and
-   no sampled input of ordinary size can show it. *)
-Theorem C20_wrap_sites : sub_multiset wraps_C20 expected_wraps_C20 = true.
-Proof. vm_compute. reflexivity. Qed.
-Print Assumptions C20_wrap_sites.
